@@ -83,7 +83,7 @@ PROPS = {
     },
     "C15": {
         "prefixes": ["c15"],
-        "e2": False,
+        "e2": True,
         "assumptions": COMMON + [
             "reference models are exact-integer (i128 / SMT Int) transcriptions of the property text",
             "F26Dot6's Mul/Div operators are judged as the raw-bit FT_MulFix/FT_DivFix kernels they share with Fixed",
